@@ -211,14 +211,15 @@ U(n) == FromNat(n)
 Cheap(v, m, e, b, lim) == LET pp == RpSignParams(v, m, e, b) IN ~pp.ok \/ pp.mant <= lim
 SmallVals == IF Thorough THEN { 0, 1, 2, 3, 4, 9, 10, 15, 16, 77, 100, 200, 255 } ELSE { 0, 1, 3, 10, 77, 255 }
 SmallExps == IF Thorough THEN { -1, 0, 1, 2, 3, 18 } ELSE { -1, 0, 1 }
-SmallBits == IF Thorough THEN { 0, 1, 2, 3, 4, 5, 7, 8 } ELSE { 0, 4 }
+SmallBits == IF Thorough THEN { 0, 1, 2, 3, 4, 5, 7, 8 } ELSE { 0 }
 Grid == { << "sign", U(v), U(m), e, b, DO >> : v \in SmallVals, m \in { 0, 1, 2, 3, 4, 9, 10, 15, 16, 77, 100, 200, 255 }, e \in SmallExps, b \in SmallBits }
-GridCases == { c \in Grid : (c[3] = Zero \/ c[3] = One \/ c[3] = c[2]) /\ (Thorough \/ c[4] >= 0 \/ c[5] = 0) }
+        \cup { << "sign", U(v), Zero, e, 4, DO >> : v \in { 3, 77 }, e \in { 0, 1 } }
+GridCases == { c \in Grid : c[3] = Zero \/ c[3] = One \/ c[3] = c[2] }
 \* the 2^63 guards, min_value = 2^64-1, min_bits capped by clz(min_value): all refusals, and the acceptances that stay small
 BigV == { Pow2(62), Sub(Pow2(63), Two), I64Max, Pow2(63), Add(Pow2(63), One), Sub(U64Max, One), U64Max }
 BigM == { Zero, One, Pow2(62), Sub(Pow2(63), Two), I64Max, Pow2(63), U64Max }
 GuardGrid == { << "sign", v, m, e, b, DO >> : v \in BigV, m \in BigM, e \in { 0, 1, 18 }, b \in { 0, 1, 61, 62, 64 } }
-         \cup { << "sign", v, m, -1, 0, DO >> : v \in BigV, m \in BigM }
+         \cup UNION { { << "sign", v, m, -1, 0, DO >> : m \in { Zero, One, v, U64Wrap(Add(v, One)), U64Max } } : v \in BigV }
 \* quick: every refusal, and the small acceptances for a third of the grid
 GuardCases == { c \in GuardGrid : LET pp == RpSignParams(c[2], c[3], c[4], c[5]) IN
                                   ~pp.ok \/ (pp.mant <= (IF Thorough THEN 8 ELSE 1) /\ (Thorough \/ (c[5] + c[4] + Len(c[2]) + Len(c[3])) % 3 = 0)) }
@@ -230,7 +231,7 @@ BigCases ==
        { << "sign", U64Max, Zero, 0, 0, [DO EXCEPT !.ml = 3968, !.xl = 100] >>,
          << "sign", I64Max, Zero, 0, 0, [DO EXCEPT !.ml = 100, !.g = 2] >> }
   \cup { << "sign", U64Max, Zero, 0, 0, [DO EXCEPT !.ml = 3969] >>, << "sign", I64Max, Zero, 0, 0, [DO EXCEPT !.ml = 4000] >>,
-         << "sign", U64Max, Zero, 0, 0, [DO EXCEPT !.pl = -2] >>, << "sign", U64Max, Zero, 0, 0, [DO EXCEPT !.pl = 5133] >> }
+         << "sign", U64Max, Zero, 0, 0, [DO EXCEPT !.pl = -2] >>, << "sign", U64Max, Zero, 0, 0, [DO EXCEPT !.pl = 5000] >> }
   \cup (IF Thorough THEN { << "sign", v, m, e, b, DO >> : v \in { Pow2(62), Ten(18), Sub(U64Max, One) }, m \in { Zero }, e \in { 0, 4 }, b \in { 0, 33, 62 } }
                          \cup { << "sign", Pow2(40), U(12345), 3, 20, [DO EXCEPT !.ml = 1000, !.xl = 7, !.g = 3] >>,
                                 << "sign", One, Zero, 0, 64, DO >>,
@@ -247,15 +248,17 @@ P4 == << Two, Zero, 0, 2 >>            \* one ring of 4
 P5 == << U(1234), U(34), 2, 0 >>       \* exponent 2, public offset 34, two rings, message capacity 128
 Var(p, o) == << "sign", p[1], p[2], p[3], p[4], o >>
 OptionCases ==
-       { Var(P1, [DO EXCEPT !.ml = l]) : l \in { 0, 1, 32, 33, 384, 385, 4000 } }
+       { Var(P1, [DO EXCEPT !.ml = l]) : l \in (IF Thorough THEN { 0, 1, 31, 32, 33, 383, 384, 385, 4000 } ELSE { 0, 33, 384, 385, 4000 }) }
   \cup { Var(p, [DO EXCEPT !.ml = l]) : p \in { P2, P3, P4 }, l \in { 0, 1 } }
   \cup { Var(P5, [DO EXCEPT !.ml = l, !.xl = 5]) : l \in { 127, 128, 129 } }
-  \cup { Var(p, [DO EXCEPT !.xl = l]) : p \in { P5, P2 }, l \in { 0, 1, 32, 100 } }
-  \cup { Var(p, [DO EXCEPT !.pl = l]) : p \in { P1, P2, P2z, P3, P5 }, l \in { 0, 1, 64, 65, 66, 73, 96, 97, -2, -3, -4, -5 } }
-  \cup { Var(p, [DO EXCEPT !.bl = s]) : p \in { P2, P3, P4, P5 }, s \in 2..8 }
-  \cup { Var(P1, [DO EXCEPT !.bl = s]) : s \in { 2, 5, 8 } }
+  \cup { Var(p, [DO EXCEPT !.xl = l]) : p \in { P5, P2 }, l \in (IF Thorough THEN { 0, 1, 32, 100 } ELSE { 0, 100 }) }
+  \cup { Var(p, [DO EXCEPT !.pl = l]) : p \in { P2, P2z, P3 }, l \in { 0, 1, 64, 65, 66, 73, 96, 97, -2, -3, -4, -5 } }
+  \cup { Var(p, [DO EXCEPT !.pl = l]) : p \in { P1, P5 }, l \in (IF Thorough THEN { 0, 64, 65, 97, -2, -3, -4, -5 } ELSE { 0, 64, 65, 97, -2, -3 }) }
+  \cup { Var(p, [DO EXCEPT !.bl = s]) : p \in { P2, P3, P4 }, s \in 2..8 }
+  \cup { Var(P5, [DO EXCEPT !.bl = s]) : s \in (IF Thorough THEN 2..8 ELSE { 2, 5, 6, 7, 8 }) }
+  \cup { Var(P1, [DO EXCEPT !.bl = s]) : s \in (IF Thorough THEN { 2, 4, 5, 8 } ELSE { 5, 8 }) }
   \cup { Var(p, [DO EXCEPT !.no = s]) : p \in { P3, P2 }, s \in { 2, 3 } }
-  \cup { Var(P5, [DO EXCEPT !.ml = 100, !.rl = l]) : l \in { 0, 1, 33, 99, 100, 101, 127, 128, 129 } }
+  \cup { Var(P5, [DO EXCEPT !.ml = 100, !.rl = l]) : l \in (IF Thorough THEN { 0, 1, 33, 99, 100, 101, 127, 128, 129 } ELSE { 0, 33, 100, 129 }) }
   \cup { Var(p, [DO EXCEPT !.g = s]) : p \in { P5, P2, P3 }, s \in { 2, 3 } }
   \cup { Var(p, [DO EXCEPT !.cm = 1]) : p \in { P5, P2, P3 } }
 MiscCases == { << "genh" >> }
